@@ -41,6 +41,11 @@ class TheCheck(TreeCheck):
         ops = []
         for w in list(range(124, 131)) + ([253, 254, 255, 256, 257] if big else [255]):
             ops += ["new 0", "put 61 76", "put 63 76"] + ["walk"] * w + ["put 62 76", "put 64 76", "walk", "cursor0", "next", "walk"]
+        # a complete walk, k abandoned walks (each advances the counter once), a complete walk:
+        # stamps of the first walk must not be mistaken for the last walk's epoch
+        for k in list(range(251, 258)) + ([507, 508, 509, 510, 511, 512] if big else [509, 510]):
+            ops += ["new 0"] + ["put %s 76" % hexs(b"w%02d" % i) for i in range(6)] + ["walk"]
+            ops += ["cursor0", "next"] * k + ["walk", "put 7a 76", "walk"]
         sts.append(Stream("wrap-probes", ops, history=True))
         sts.append(Stream("random", self.random_history(700 if not big else 8000, 30 if not big else 300, 0,
                                                         ops=("put", "put", "rm", "walk", "abandon", "fullnext", "near"), quiet=False if not big else True), history=True))
